@@ -146,8 +146,30 @@ def run_unit(unit, tier):
                 "unit": unit.name, "label": sig, "kind": "exception", "msg": str(p.exc)[:300],
                 "path": p.index, "values": vals, "replay": rep, "traceback": tb})
         elif p.status == "abort" and p.abort_kind not in ("unwind",) and not unit.allow_aborts:
-            res["inconclusive"].append({"unit": unit.name, "label": "abort:%s" % p.exc.why, "kind": "abort",
-                                        "path": p.index})
+            # the real code left the symbolic domain on this path (e.g. converted a value to a C float).  Before
+            # giving up, take a model of the path condition and run the same harness concretely on the real code:
+            # an assertion failing there is a reproduced violation; otherwise the path stays inconclusive.
+            entry = {"unit": unit.name, "label": "abort:%s" % p.exc.why, "kind": "abort", "path": p.index}
+            if "abort-fallback" not in exc_seen:
+                exc_seen.add("abort-fallback")
+                try:
+                    vals = path_model(unit, p, ex)
+                    with contextlib.redirect_stdout(io.StringIO()):
+                        cc, st_, exc_ = sym.run_concrete(unit.fn, vals, unit.tol)
+                    if cc.failed:
+                        res["violations"].append({"unit": unit.name, "label": cc.failed[0], "kind": "assertion", "path": p.index,
+                                                  "values": vals, "replay": {"reproduced": True, "how": "symbolic path aborted (%s); concrete re-execution of the same harness on the real code fails the assertion" % p.exc.why,
+                                                                             "info": {"failed": cc.failed[:10], "status": st_}}})
+                        continue
+                    if st_ == "exception":
+                        res["violations"].append({"unit": unit.name, "label": "exception:%s" % type(exc_).__name__, "kind": "exception", "path": p.index,
+                                                  "values": vals, "msg": str(exc_)[:300],
+                                                  "replay": {"reproduced": True, "how": "symbolic path aborted (%s); the real code raises on the concrete input" % p.exc.why,
+                                                             "info": {"exc": repr(exc_)[:300]}}})
+                        continue
+                except BaseException:
+                    pass
+            res["inconclusive"].append(entry)
     if s["budget_exhausted"]:
         res["inconclusive"].append({"unit": unit.name, "label": "path/time budget exhausted", "kind": "budget"})
     if unit.expect_reach and s["queries"] == 0:
@@ -199,7 +221,7 @@ def run_unit(unit, tier):
     return res
 
 
-def path_model(unit, p, ex):
+def path_model(unit, p, ex, diverse=True):
     """re-run the path to recover its pc and ask for a model"""
     holder = {}
 
@@ -217,7 +239,19 @@ def path_model(unit, p, ex):
         pass
     finally:
         sym._CTX = prev
-    v = sym.solve(c.pc, timeout_ms=ex.verdict_timeout_ms)
+    # prefer a NON-DEGENERATE assignment (pairwise distinct, non-zero, non-unit values): an all-zero model would
+    # make permutations, dropped terms and in-place modifications invisible to a concrete run
+    v = None
+    if diverse:
+        nums = [z for z in c.symbols.values() if z.sort() != z3.BoolSort()]
+        reals = [sym._real(z) for z in nums]
+        extra = [z3.Distinct(*reals)] if len(reals) > 1 else []
+        extra += [z3.And(r != 0, r != 1, r != -1) for r in reals]
+        vd = sym.solve(c.pc + extra, timeout_ms=min(5000, ex.verdict_timeout_ms))
+        if vd.status == "sat":
+            v = vd
+    if v is None:
+        v = sym.solve(c.pc, timeout_ms=ex.verdict_timeout_ms)
     if v.status != "sat":
         return {}
     return {k: _jsonable(val) for k, val in c._model_vals(v.model, None).items()}
